@@ -50,7 +50,7 @@ def build(tier, seed):
                 % (L, list(SCAL), list(DTS), list(XIS), list(RATIOS)),
         'bounds': {'alphabet': [-1, 0, 1], 'max_len': L, 'dt': DTS, 'xi': XIS, 'T_over_dt': RATIOS, 'refinement': [2, 8], 'shifts': [1, 3]},
         'required_classes': ['pair-independent', 'split-changes-tail', 'shift-nonzero-response', 'perm-nonidentity',
-                             'partition-multiblock', 'refine', 'leading-zero-period', 'consecutive-calls'],
+                             'partition-multiblock', 'refine', 'leading-zero-period', 'consecutive-calls', 'int-period-container', 'tiny-scale'],
         'assumptions': ['relations are checked between executions of the implementation itself (no reference values needed)',
                         'refinement only where T/(dt/r) <= 2e4 (the domain of C01)'],
     }
@@ -139,7 +139,9 @@ def run_record(case, r):
                         except Exception as e:
                             r.fail('linearity.' + nm, sub, 'malformed result: %s' % e)
             # ---- spectra scale with |alpha| and ignore the sign
-            for al in (-1.0, 2.0, -3.0):
+            for al in (-1.0, 2.0, -3.0, 1e-9, 1e9):
+                if abs(al) != 1 and abs(al) < 1e-3:
+                    r.cls('tiny-scale')
                 sub = dict(base, alpha=al)
                 for nm, fn, ref_ in (('pseudo', sdof.pseudo_response_spectra, spa if oks else None),
                                      ('true', sdof.true_response_spectra, sta if okt else None)):
@@ -312,6 +314,17 @@ def run_batching(case, r):
                         okt, outt = r.call('batching.order', dict(sub, fn='true'), sdof.true_response_spectra, a, dt, np.array(plist), xi)
                         r.transitions += 1
                         try:
+                            if ok and lead0:
+                                # the T=0 entry depends on nothing else either: zero displacement and velocity, the sign-flipped record
+                                u0, v0, a0 = (np.asarray(out[j], dtype=float)[0] for j in range(3))
+                                r.n_cmp += 1
+                                if not (np.all(u0 == 0) and np.all(v0 == 0) and np.allclose(a0, -a, rtol=0, atol=1e-15 * np.max(np.abs(a)))):
+                                    r.fail('batching.order', dict(sub, row='T=0'), 'the T=0 row is not (0, 0, -record)', observed=(u0, v0, a0))
+                            if okp and lead0:
+                                r.n_cmp += 1
+                                sd0, sv0, sa0 = (float(np.asarray(outp[j], dtype=float)[0]) for j in range(3))
+                                if not (sd0 == 0 and sv0 == 0 and abs(sa0 - np.max(np.abs(a))) <= 1e-12 * np.max(np.abs(a))):
+                                    r.fail('batching.order', dict(sub, fn='pseudo', row='T=0'), 'the T=0 spectral entries are not (0, 0, PGA)', observed=(sd0, sv0, sa0))
                             if ok:
                                 for j in range(3):
                                     g = np.asarray(out[j], dtype=float)[off:]
@@ -335,6 +348,27 @@ def run_batching(case, r):
                                                observed=g, expected=want)
                         except Exception as e:
                             r.fail('batching.order', sub, 'malformed: %s' % e)
+                # the same periods in an integer-typed container (python ints, int64 array), where they are whole seconds
+                if all(float(T).is_integer() for T in subset):
+                    for lead0 in (False, True):
+                        ints = ([0] if lead0 else []) + [int(T) for T in subset]
+                        off = 1 if lead0 else 0
+                        for cname, cont in (('int-list', list(ints)), ('int-ndarray', np.array(ints, dtype=np.int64))):
+                            sub = {'dt': dt, 'xi': xi, 'a': a.tolist(), 'periods_s': ints, 'container': cname}
+                            r.cls('int-period-container')
+                            okp, outp = r.call('batching.container', sub, sdof.pseudo_response_spectra, a, dt, cont, xi)
+                            okt, outt = r.call('batching.container', sub, sdof.true_response_spectra, a, dt, cont, xi)
+                            for okx, outx, base_j, fnn in ((okp, outp, 3, 'pseudo'), (okt, outt, 6, 'true')):
+                                if not okx or any(T not in single or len(single[T]) != 9 for T in subset):
+                                    continue
+                                r.n_cmp += 1
+                                try:
+                                    good = all(np.allclose(np.asarray(outx[j], dtype=float)[off:], [single[T][base_j + j] for T in subset], rtol=1e-12, atol=0) for j in range(3))
+                                except Exception:
+                                    good = False
+                                if not good:
+                                    r.fail('batching.container', dict(sub, fn=fnn), '%s spectra for integer-typed periods differ from the single float-period results' % fnn,
+                                           observed=outx)
                 # consecutive calls whose period lists share length and end entries but differ inside (a result must depend on
                 # its own period only, not on what the previous call happened to compute)
                 if size >= 3 and all(T in single and len(single[T]) == 9 for T in menu):
